@@ -64,23 +64,67 @@ func propC13Writers(t *rapid.T) {
 	}
 	core, logs := observer.New(zapcore.DebugLevel)
 	lg := zap.New(core)
-	// zapio.Writer, enabled and disabled
+	// io.Writer: "Write must not modify the slice data, even temporarily. Implementations must not retain p."
+	// Every Write below receives a private copy of the payload that is overwritten as soon as Write returns (what
+	// io.Copy, bufio and os/exec do with their buffers); what the sinks observed is checked afterwards.
+	wr := func(name string, w io.Writer, b []byte) (int, error) {
+		q := append(make([]byte, 0, len(b)+8), b...)
+		n, err := w.Write(q)
+		if !bytes.Equal(q, b) {
+			t.Fatalf("%s.Write modified the caller's slice: %q became %q", name, clipS(string(b)), clipS(string(q)))
+		}
+		for i := range q {
+			q[i] = '#'
+		}
+		return n, err
+	}
+	// zapio.Writer, enabled and disabled; the payload arrives in one to three chunks
 	zw := &zapio.Writer{Log: lg}
-	n, err := zw.Write(p)
+	cuts := []int{0, len(p)}
+	if len(p) > 1 && rapid.Bool().Draw(t, "chunked") {
+		a := rapid.IntRange(0, len(p)).Draw(t, "cut1")
+		b := rapid.IntRange(a, len(p)).Draw(t, "cut2")
+		cuts = []int{0, a, b, len(p)}
+	}
+	total := 0
+	for i := 0; i+1 < len(cuts); i++ {
+		part := p[cuts[i]:cuts[i+1]]
+		n, err := wr("zapio.Writer", zw, part)
+		if err != nil || n != len(part) {
+			t.Fatalf("zapio.Writer.Write(%d bytes) = (%d, %v), want (%d, nil)", len(part), n, err, len(part))
+		}
+		total += n
+	}
+	n, err := total, error(nil)
 	chk("zapio.Writer", n, err)
 	zw.Close()
+	{
+		lines := strings.Split(string(p), "\n")
+		if lines[len(lines)-1] == "" {
+			lines = lines[:len(lines)-1] // no extraneous empty message at the end of the stream
+		}
+		es := logs.TakeAll()
+		if len(es) != len(lines) {
+			t.Fatalf("zapio.Writer logged %d entries for a payload of %d lines: %q", len(es), len(lines), clipS(string(p)))
+		}
+		for i, e := range es {
+			if e.Message != lines[i] {
+				t.Fatalf("zapio.Writer: entry %d has message %q, the caller wrote %q (the writer must not retain the caller's slice)", i, clipS(e.Message), clipS(lines[i]))
+			}
+		}
+	}
 	zd := &zapio.Writer{Log: lg, Level: zapcore.Level(-5)}
-	n, err = zd.Write(p)
+	n, err = wr("zapio.Writer(disabled level)", zd, p)
 	chk("zapio.Writer(disabled level)", n, err)
 	// std-log bridge writers
 	logs.TakeAll()
-	n, err = zap.NewStdLog(lg).Writer().Write(p)
+	n, err = wr("std-log bridge", zap.NewStdLog(lg).Writer(), p)
 	chk("NewStdLog(l).Writer()", n, err)
 	if es := logs.TakeAll(); len(es) != 1 || es[0].Message != string(bytes.TrimSpace(p)) {
 		t.Fatalf("std-log bridge logged %v for payload %q", es, clipS(string(p)))
 	}
 	if sl, e := zap.NewStdLogAt(lg, zapcore.WarnLevel); e == nil {
-		n, err = sl.Writer().Write(p)
+		n, err = wr("std-log bridge", sl.Writer(), p)
 		chk("NewStdLogAt(l, Warn).Writer()", n, err)
 	}
 	// the bridge on loggers that will not log the message (level disabled, no-op core, level raised later): the
@@ -117,7 +161,7 @@ func propC13Writers(t *rapid.T) {
 	// testing writer
 	tb := &fakeTB{}
 	tw := zaptest.NewTestingWriter(tb)
-	n, err = tw.Write(p)
+	n, err = wr("TestingWriter", tw, p)
 	chk("zaptest.TestingWriter", n, err)
 	if len(tb.logs) != 1 || tb.logs[0] != string(bytes.TrimRight(p, "\n")) || tb.failed != 0 {
 		t.Fatalf("TestingWriter logged %q (failed=%d) for payload %q", tb.logs, tb.failed, clipS(string(p)))
@@ -131,9 +175,9 @@ func propC13Writers(t *rapid.T) {
 	under := &memSink{}
 	size := rapid.SampledFrom([]int{0, 1, 16, 4096, 256 * 1024}).Draw(t, "bufferSize")
 	bws := &zapcore.BufferedWriteSyncer{WS: under, Size: size, FlushInterval: time.Hour}
-	n, err = bws.Write(p)
+	n, err = wr("BufferedWriteSyncer", bws, p)
 	chk("BufferedWriteSyncer", n, err)
-	n, err = bws.Write(p)
+	n, err = wr("BufferedWriteSyncer", bws, p)
 	chk("BufferedWriteSyncer(second write)", n, err)
 	if err := bws.Stop(); err != nil {
 		t.Fatalf("Stop: %v", err)
